@@ -836,3 +836,44 @@ class Interp:
 
 def load(text):
     return Interp(text)
+
+
+# ---------------------------------------------------------------------------------------------------
+# kinds: a real-valued encoding cannot see that `double precision :: c = 4.0*atan(1.0)` is evaluated in DEFAULT (single)
+# precision before it is stored.  Module-level initialisers are constant expressions over literals and intrinsics, so the
+# question is decided by evaluating them under both kind assignments (binary32 for default-real literals and whatever
+# is computed from them / binary64 throughout).
+# ---------------------------------------------------------------------------------------------------
+def kind_mismatches(text):
+    """[(name, initialiser, value_as_written, value_in_double)] for double precision constants whose initialiser, evaluated
+    with Fortran's kind rules, differs from its double precision value by more than 4 ulp"""
+    import numpy as _np
+    _, consts = parse_module(text)
+    out = []
+    lit = re.compile(r"(?<![\w.])(\d+\.\d*|\.\d+|\d+)(?:([eEdD])([+-]?\d+))?(?:_(\w+))?")
+    fns = dict(atan=_np.arctan, asin=_np.arcsin, acos=_np.arccos, exp=_np.exp, log=_np.log, sqrt=_np.sqrt, sin=_np.sin,
+               cos=_np.cos, tan=_np.tan, abs=_np.abs)
+    for nm, (tp, val) in consts.items():
+        if not tp.startswith('double'):
+            continue
+
+        def render(single):
+            def rep(m):
+                mant, ech, eexp, kind = m.groups()
+                is_real = ('.' in mant) or ech is not None
+                if not is_real:
+                    return f"int({mant})"
+                num = mant + (f"e{eexp}" if ech else '')
+                dbl = (ech in ('d', 'D')) or (kind in ('8', 'dp', 'real64'))
+                return f"_f64({num})" if (dbl or not single) else f"_f32({num})"
+            return lit.sub(rep, val.lower()).replace('**', '**')
+        try:
+            with _np.errstate(all='ignore'):
+                env = dict(fns, _f32=_np.float32, _f64=_np.float64, int=int, __builtins__={})
+                a = float(eval(render(True), env))
+                b = float(eval(render(False), env))
+        except Exception:   # noqa  (not a constant expression over the modelled intrinsics)
+            continue
+        if abs(a - b) > 4 * _np.spacing(abs(b)):
+            out.append((nm, val, a, b))
+    return out
